@@ -150,6 +150,9 @@ class Session:
             gc.collect()
         _tls.session = self
         self.armed = True
+        if prev is None:
+            with _active_lock:
+                _active[0] += 1
         try:
             if runner is not None:
                 runner()
@@ -169,9 +172,19 @@ class Session:
             # simulation - otherwise the collector finalises it in the middle of a later
             # execution, where its ``finally`` blocks would talk to the wrong loop.
             if prev is None:
-                _release_waiters_of_singletons()
+                with _active_lock:
+                    _active[0] -= 1
+                    # (only when no simulation is being monitored in any other thread: what
+                    # is subscribed to the singleton may be theirs)
+                    if _active[0] == 0:
+                        _release_waiters_of_singletons()
                 gc.collect()
         return ('ok', None)
+
+
+#: outermost monitored runs in progress, over all threads
+_active = [0]
+_active_lock = threading.Lock()
 
 
 def _release_waiters_of_singletons():
